@@ -83,14 +83,17 @@ func Match(seq Sequence, query Sequence) []Segment {
 		case 'n':
 			b.WriteString(".")
 		default:
-			b.WriteByte(c)
+			b.WriteString(regexp.QuoteMeta(string([]byte{c})))
 		}
 	}
 
 	s := b.String()
 	p := bytes.ToLower(seq.Bytes())
 
-	re := regexp.MustCompile(s)
+	re, err := regexp.Compile(s)
+	if err != nil {
+		return nil
+	}
 	pairs := re.FindAllIndex(p, -1)
 	segments := make([]Segment, len(pairs))
 	for i, pair := range pairs {
